@@ -168,6 +168,7 @@ class SymAtoms:
     def wrap(self, **kw):
         """A-ASE wrap: every periodic scaled component is shifted by an integer into [0,1) (eps ignored: L-FLOAT)."""
         self.mutations.append("wrap")
+        self.pbc_at_wrap = [x for x in (kw.get("pbc") if kw.get("pbc") is not None and not isinstance(kw.get("pbc"), (bool, SB)) else self.pbc)] if not isinstance(kw.get("pbc"), (bool, SB)) else [kw.get("pbc")] * 3
         st = cur()
         st.safety("singular-cell-in-wrap", det_term(self.cell) != 0)
         pos, cell, pbc = self.positions, self.cell, self.pbc
